@@ -296,7 +296,7 @@ func casesEntries(t *testing.T, sess *session, start, end int64, v variant, meth
 		jsonCoq := "None"
 		var m mEntries
 		decoded := false
-		if att.received && att.ReadOK && json.NewDecoder(bytes.NewReader(att.body)).Decode(&m) == nil {
+		if att.received && att.ReadOK && json.Unmarshal(att.body, &m) == nil {
 			decoded = true
 			jsonCoq = lib.Some(entriesCoq(m.Entries))
 		}
